@@ -99,7 +99,7 @@ def rand_memory(rng, n):
 
 def physical_case(rng, tier, d=None, n=None, **kw):
     d = d or rng.choice([2, 2, 2, 3] if tier == "quick" else [2, 2, 3, 3])
-    nmax = {2: 4, 3: 3}[d] if tier != "quick" else {2: 3, 3: 2}[d]
+    nmax = {2: 4, 3: 3}.get(d, 2) if tier != "quick" else {2: 3, 3: 2}.get(d, 2)
     n = n or rng.randrange(2, nmax + 1)
     coupling, ckind = rand_coupling(rng, d, kw.get("coupling_kind"))
     corr, cdesc = rand_correlations(rng)
